@@ -17,15 +17,17 @@ def run(prop, tier, seed, t0, replay):
     viols = []
 
     def work(w):
-        p = subprocess.run([binp, str(w), str(nw), tier, str(seed)], stdout=subprocess.PIPE, stderr=subprocess.PIPE, env=env, text=True, errors="replace")
-        return p.returncode, p.stdout, p.stderr
+        rc_, out_, err_ = core.run_timed([binp, str(w), str(nw), tier, str(seed)], env, 900 if tier == "quick" else 3600)
+        return rc_, out_, err_
     with ThreadPoolExecutor(nw) as ex:
         outs = list(ex.map(work, range(nw)))
     names = ["cases", "violations", "fields_compared", "method_rounds", "containers_compared", "clones_compared",
              "constants_compared", "one_hot_cases"]
     obs = {n: 0 for n in names}
     for rc, out, err in outs:
-        if rc not in (0, 1):
+        if rc == 124:
+            obs["harness_timeouts"] = obs.get("harness_timeouts", 0) + 1
+        elif rc not in (0, 1):
             kind = "crash"
             if "AddressSanitizer" in err:
                 m2 = re.search(r"AddressSanitizer: (\S+)", err)
